@@ -17,6 +17,14 @@ pub fn monitor(out: &RunOut) -> MonOut {
     }
     // requests built directly with the client's builder: update check + event on one app
     for r in h.iter() {
+        if let Kind::MockDirectEvent { apps, answered_apps, parses, failure } = &r.kind {
+            m.count("R1.direct_event_reports_under_a_cohort_assertion");
+            if let Some(f) = failure {
+                m.viol(p, "R1", format!("mock|direct-event|{}", f.chars().take(60).collect::<String>().replace(' ', "_")), format!("the mock server failed on an event report from an app outside the asserted cohort (the assertion is about update checks): {f}"));
+            } else if !*parses || answered_apps != apps {
+                m.viol(p, "R1", "direct-event", format!("event report answered with apps {:?} (parses={parses}), reported apps {:?}", answered_apps, apps));
+            }
+        }
         if let Kind::MockDirect { apps, doc, parses, cfg, failure } = &r.kind {
             m.count("R1.direct_mixed_requests");
             let site = "direct-mixed";
